@@ -72,50 +72,55 @@ func calibrate(r *refVal, T time.Duration, N int) {
 	saved := dbft.VerifMapPerm
 	dbft.VerifMapPerm = nil
 	defer func() { dbft.VerifMapPerm = saved }()
-	const me = 2
+	// Not at the first block of a chain: what the library does there is itself under judgement
+	// (findings D14, R1); the reference is taken at an ordinary height.
+	const base = uint32(5)
+	me := 7 % N
 	// Nothing below may make the instance propose: a proposal draws its nonce from the
 	// process-wide seeded crypto/rand stream that the run under judgement also uses.
-	// Height 1: the view-v primary is validator (1-v) mod N, so validator 2 is a backup in
-	// views 0..N-2.
+	// Height 6: the view-v primary is validator (6-v) mod N, so validator 7 mod N is a backup in
+	// views 0..N-2 and the view-0 primary of height 7.
 	d, tm, tip := refInstance(T, N, me)
 	if d == nil {
 		return
 	}
 	ts := uint64(tm.now.UnixNano())
+	*tip = base
 	d.Start(ts)
-	if d.BlockIndex != 1 || d.MyIndex != me || d.IsPrimary() || tm.n == 0 {
+	if d.BlockIndex != base+1 || d.MyIndex != me || d.IsPrimary() || tm.n == 0 {
 		return
 	}
 	r.back0 = tm.last
-	// the next block arrives from the ledger at the same instant: height 2, we are its primary
-	*tip = 1
+	// the next block arrives from the ledger at the same instant: height 7, we are its primary
+	*tip = base + 1
 	tm.n = 0
 	d.Reset(ts)
-	if d.BlockIndex != 2 || !d.IsPrimary() || tm.n == 0 {
+	if d.BlockIndex != base+2 || !d.IsPrimary() || tm.n == 0 {
 		return
 	}
 	r.prim0 = tm.last
 	r.ok = true
 	// the ladder, on another fresh instance: time out, hear everybody else ask for the next
 	// view, enter it as a backup
-	d, tm, _ = refInstance(T, N, me)
+	d, tm, tip = refInstance(T, N, me)
 	if d == nil {
 		return
 	}
+	*tip = base
 	d.Start(ts)
 	for v := byte(1); int(v) <= N-2 && int(v) < len(r.backV); v++ {
 		if d.ViewNumber != v-1 || d.IsPrimary() {
 			return
 		}
-		d.OnTimeout(1, v-1)
+		d.OnTimeout(base+1, v-1)
 		tm.n = 0
 		for j := 0; j < N && d.ViewNumber == v-1; j++ {
 			if j == me {
 				continue
 			}
-			d.OnReceive(&Payload{T: dbft.ChangeViewType, H: 1, V: v - 1, Idx: uint16(j), Body: &ChView{NewView: v, Rsn: dbft.CVTimeout, TS: ts}, sender: -1})
+			d.OnReceive(&Payload{T: dbft.ChangeViewType, H: base + 1, V: v - 1, Idx: uint16(j), Body: &ChView{NewView: v, Rsn: dbft.CVTimeout, TS: ts}, sender: -1})
 		}
-		if d.ViewNumber != v || d.IsPrimary() || tm.n == 0 || tm.h != 1 || tm.v != v {
+		if d.ViewNumber != v || d.IsPrimary() || tm.n == 0 || tm.h != base+1 || tm.v != v {
 			return
 		}
 		r.backV[v] = tm.last
